@@ -213,7 +213,11 @@ class Effects:
                     recv = call.args[0].value.id
                 if recv in own:
                     for c in res.callees:
-                        stack.append(c)
+                        # only methods of the same object family: ``self.fn(...)`` with
+                        # fn a callable attribute runs on somebody else's state
+                        if f.cls is None or c.cls is None or c.cls.is_subclass_of(f.cls) \
+                                or f.cls.is_subclass_of(c.cls):
+                            stack.append(c)
                 elif attr_recv_filter is None and recv is None:
                     # plain function call: follow for globals only
                     for c in res.callees:
